@@ -816,13 +816,11 @@ func (c *ClientConn) readDownstreamMetadataLoop() {
 		c.downstreams.mu.RLock()
 		chs, ok := c.downstreams.metadata[msg.StreamIDAlias]
 		if ok {
-			ch, ok := chs[msg.SourceNodeID]
-			if !ok {
-				continue
-			}
-			select {
-			case ch <- msg:
-			default:
+			if ch, ok := chs[msg.SourceNodeID]; ok {
+				select {
+				case ch <- msg:
+				default:
+				}
 			}
 		}
 		c.downstreams.mu.RUnlock()
